@@ -180,6 +180,7 @@ func c05Run(c *ctx, order []string, extras int, pos int, capital bool, seed uint
 	if len(bs) < 30000 {
 		c.corr("parse "+hx(bs), "ok "+msg.String())
 	}
+	decCorr(c, tm, bs)
 	var dec interface{}
 	o, m := guard(func() error {
 		var e error
